@@ -16,13 +16,13 @@ def check(ctx):
                       "(1-x), tp = N+ y_min, fn = N+ (1-y_min) bound to the keywords of the same role, the objective is "
                       "METRIC_DICT[objective] of those counts and the index is its arg-max")
     ctx.rule("R05.3", "accepted (constraints, objective) tables: decided by C20 R20.9 (shared)")
-    r051(ctx)
+    ctx.guard(r051, ctx)
     from .c04 import sweep_structure
-    sweep_structure(ctx, "R05.1")
+    ctx.guard(sweep_structure, ctx, "R05.1")
     ctx.rule("R05.4", "scores, labels and sensitive features are paired by position in the optimiser's training frame "
                       "(label-provenance analysis of ThresholdOptimizer.fit, shared with C12 R12.1)")
     from .c12 import label_sinks
-    label_sinks(ctx, "R05.4", [(TO + ".fit", TO)])
+    ctx.guard(label_sinks, ctx, "R05.4", [(TO + ".fit", TO)])
     out = routines(ctx, "C05")
     if "simple" in out:
         _simple(ctx, out["simple"])
